@@ -1,13 +1,15 @@
 from .. import facts
 from ..common import Report, finish
-from ..rules import byteorder, c16, capguard, signext
+from ..rules import byteorder, c16, capguard, signext, dbgsize, declen
 
 RULE = ("(a) a function named for one byte order calls only same-order helpers; (b) the error word of every "
         "decode_hex_byte call and the overflow flag of every push_limb call reaches a branch or a CtOption choice; "
         "(c) fallible decoders with a precision parameter have a returning branch depending on input length and "
         "precision, and every copy of a parameter-derived slice into a buffer inside a fallible function is "
         "dominated by an error-exit guard comparing both lengths; (e) c16.signext: a value cast out of a signed primitive is "
-        "widened into a generic-width integer only by the sign-extending Int::resize, never by a zero-padding constructor")
+        "widened into a generic-width integer only by the sign-extending Int::resize, never by a zero-padding constructor; (f) c16.dbgsize: the width requirement of a "
+        "From<primitive> conversion is enforced in release builds, not only by a debug assertion; (g) c16.declen: the slice "
+        "returned by serdect's buffer decoder (the only witness of how many bytes were decoded) is read, not dropped")
 
 
 def run(tier, t0):
@@ -20,10 +22,14 @@ def run(tier, t0):
         c16.run_d(f, rep, cfg, eng)
         capguard.run(f, rep, cfg, scope="encoding")
         signext.run(f, rep, cfg, prefix="c16.signext")
+        dbgsize.run(f, rep, cfg, prefix="c16.dbgsize", counter="primitive_conversions")
+        declen.run(f, rep, cfg)
     rep.floor("byteorder_pairs", 100)
     rep.floor("error_word_sources", 6)
     rep.floor("precision_decoders", 1)
     rep.floor("generic_width_widenings_in_signed_cast_bodies", 4)
+    rep.floor("primitive_conversions", 16)
+    rep.floor("external_decode_calls", 2)
     return finish(rep, tier, t0,
                   explanation="byte-order naming rule over all call sites, label-flow of decoder error words to "
                               "decisions, and length-vs-capacity guards, in two feature configurations; positional "
